@@ -319,6 +319,31 @@ class Deployment:
             env["OCTO_VERIF_TRACE"] = os.path.join(self.dir, "client.trace")
         self.client = Proc("client", [vlib.CLIENT_BIN, cj], os.path.join(self.dir, "client.log"), env, self.client_preexec)
 
+    def add_client(self, user_index, tag="client2"):
+        """A further client process (another user of the same server). Returns its local port."""
+        import copy
+        conf = copy.copy(self.conf)
+        conf.user_index = user_index
+        port = free_port(also_udp=True)
+        cj = os.path.join(self.dir, tag + ".json")
+        json.dump(conf.client_json(port, self.link_port or self.server_port, self.client_level), open(cj, "w"), indent=1)
+        env = dict(self.env)
+        if self.trace:
+            env["OCTO_VERIF_TRACE"] = os.path.join(self.dir, tag + ".trace")
+        p = Proc(tag, [vlib.CLIENT_BIN, cj], os.path.join(self.dir, tag + ".log"), env, self.client_preexec)
+        self.extra = getattr(self, "extra", [])
+        self.extra.append((p, port))
+        return p, port
+
+    async def wait_bound(self, proc, port, kinds=("tcp", "udp"), timeout=15.0):
+        t0 = time.time()
+        while not all(listening(port, k) for k in kinds):
+            if not proc.alive():
+                raise ToolError("%s exited during start-up: %s" % (proc.name, proc.log_text()[-400:]))
+            if time.time() - t0 > timeout:
+                raise ToolError("%s did not bind %s" % (proc.name, port))
+            await asyncio.sleep(0.03)
+
     def server_kinds(self):
         c = self.conf
         kinds = []
@@ -355,13 +380,13 @@ class Deployment:
             await asyncio.sleep(0.03)
 
     def stop(self):
-        for p in (self.client, self.server):
+        for p in [x[0] for x in getattr(self, "extra", [])] + [self.client, self.server]:
             if p:
                 p.stop()
 
     def panics(self):
         out = []
-        for p in (self.client, self.server):
+        for p in [self.client, self.server] + [x[0] for x in getattr(self, "extra", [])]:
             if p:
                 out += ["%s: %s" % (p.name, l) for l in p.panicked()]
         return out
